@@ -2,9 +2,7 @@
 Driver of the executable primitive library: `harness/prim` compares every answer with Go's
 standard library (tools/prim_selftest.sh).  `drv_prim bench` prints measured throughput.
 -/
-import TdModel.Prim.SHA256
-import TdModel.Prim.SHA1
-import TdModel.Prim.AES
+import TdModel.Prim.All
 open TdModel TdModel.Prim
 
 def hex1 (f : Bytes → String) (a : String) : String :=
@@ -19,10 +17,10 @@ def hex2 (f : Bytes → Bytes → String) (a b : String) : String :=
 
 def handle (line : String) : String :=
   match words line with
-  | ["sha256", a] => hex1 (fun x => toHex (sha256 x)) a
-  | ["sha1", a] => hex1 (fun x => toHex (sha1 x)) a
-  | ["aesenc", k, b] => hex2 (fun k b => toHex (aesEncBlock k b)) k b
-  | ["aesdec", k, b] => hex2 (fun k b => toHex (aesDecBlock k b)) k b
+  | ["sha256", a] => hex1 (fun x => toHex (Prims.real.sha256 x)) a
+  | ["sha1", a] => hex1 (fun x => toHex (Prims.real.sha1 x)) a
+  | ["aesenc", k, b] => hex2 (fun k b => toHex (Prims.real.aesEnc k b)) k b
+  | ["aesdec", k, b] => hex2 (fun k b => toHex (Prims.real.aesDec k b)) k b
   | ["aesctr", k, iv, skip, d] =>
     match ofHex k, ofHex iv, skip.toNat?, ofHex d with
     | some k, some iv, some skip, some d =>
